@@ -784,7 +784,7 @@ func runHistory(r *vf.Run, h *history, idx int) (nontrivial bool, obsSig string)
 func TestCheck(t *testing.T) {
 	r := vf.Start(t, "C36", vf.Exploration)
 	defer r.Finish()
-	r.SetRule("histories from a PRNG: 0-3 harness provider controllers on a real in-memory bus (initially up or down, eager start-up values 0-2, eager idle), 3-12 steps drawn from {single op, concurrent burst of 0-4 ops per provider, close/open the stream's Send gate, start a second lookup stream, checkpoint}; ops = add value, remove value, mark idle, mark busy, remove the provider controller, add it again. The real AccessRpcServiceServer.LookupRpcService runs against a recording harness stream. Oracle per stream: Exists/Removed strictly alternate starting with Exists; idle reports never repeat a value; at every checkpoint (all harness goroutines joined, every bus/server goroutine parked in two+ consecutive stack snapshots with unchanged counters, gate open) last availability report = Exists <=> the harness' own count of live provider values > 0, and last idle report = the directive's idle state seen by an independent idle callback; after cancelling the stream the call returns. A history is non-trivial when at least one report was sent; distinct = distinct history script. Plus: MarshalComponentID/UnmarshalComponentID round trip on PRNG (service, server) strings and no panic on arbitrary component ids.")
+	r.SetRule("histories from a PRNG: 0-3 harness provider controllers on a real in-memory bus (initially up or down, eager start-up values 0-2, eager idle), 3-12 steps drawn from {single op, concurrent burst of 0-4 ops per provider, close/open the stream's Send gate, start a second lookup stream, checkpoint}; ops = add value, remove value, mark idle, mark busy, remove the provider controller, add it again. The real AccessRpcServiceServer.LookupRpcService runs against a recording harness stream. Oracle per stream: Exists/Removed strictly alternate starting with Exists; idle reports never repeat a value; at every checkpoint (all harness goroutines joined, every bus/server goroutine parked in two+ consecutive stack snapshots with unchanged counters, gate open) last availability report = Exists <=> the harness' own count of live provider values > 0, and last idle report = the directive's idle state seen by an independent idle callback; after cancelling the stream the call returns. A history is non-trivial when at least one report was sent; distinct = distinct history script. Plus: MarshalComponentID/UnmarshalComponentID round trip of many requests in one process: PRNG (service, server) strings and structured families of confusable requests - boundary-shifted pairs over every ASCII character (NUL included) and some multi-byte strings as separator (service+sep+server resp. server+sep+service coincide, separator at the boundary, doubled separator, empty server id), swapped pairs, pairs sharing one field, pairs sharing a long prefix; all interleaved in a PRNG order, then every request once more from 8 goroutines in another order; each decoded result must equal its own request and one component id must never be issued for two different requests; no panic on arbitrary component ids.")
 	r.Assume("controllerbus delivers value added/removed and idle callbacks of one directive instance in order (its per-instance callback queue); the provider controllers and the idle observer are harness code")
 	r.Assume("quiescence = every goroutine whose stack mentions rpc/access, controllerbus or a harness provider is parked (select / chan receive / chan send / cond wait) in 3 consecutive dumps with no harness counter change; watchdog expiry is inconclusive, never a verdict")
 
@@ -816,42 +816,144 @@ func TestCheck(t *testing.T) {
 		}
 		return sb.String()
 	}
+	// The request list: PRNG requests plus structured families of requests that
+	// are easy to confuse with each other: boundary-shifted pairs (the bytes of
+	// service id and server id joined by a separator-like string coincide although
+	// the requests differ), swapped pairs, pairs sharing one field, pairs sharing
+	// a long prefix, repeated requests. All of them are encoded in ONE process,
+	// each decoded result is compared with its own request.
+	type cidReq struct{ svc, srv, how string }
+	var reqs []cidReq
 	for i := 0; i < m; i++ {
-		svc, srv := randStr(), randStr()
-		if i%50 == 0 {
-			r.Begin(fmt.Sprintf("component id round trip service=%q server=%q", svc, srv))
+		reqs = append(reqs, cidReq{randStr(), randStr(), "prng"})
+	}
+	var seps []string
+	for c := 0; c < 128; c++ { // every ASCII character as a separator, NUL included
+		seps = append(seps, string(rune(c)))
+	}
+	seps = append(seps, "", "::", "//", "->", ", ", "\r\n", "é", "日", "\u2028", "%2F", "\x00\x00")
+	segAlph := []rune("abz09AZ.-_é")
+	seg := func(min int) string {
+		l := min + crng.IntN(6)
+		var sb strings.Builder
+		for k := 0; k < l; k++ {
+			sb.WriteRune(segAlph[crng.IntN(len(segAlph))])
 		}
+		return sb.String()
+	}
+	reqs = append(reqs, cidReq{"plugin/echo.Echoer", "host", "shift"}, cidReq{"plugin", "echo.Echoer/host", "shift"})
+	nShift := 0
+	for rep := 0; rep < r.N(3, 40); rep++ {
+		for _, sep := range seps {
+			x, y, z := seg(1), seg(0), seg(1)
+			if rep%3 == 2 {
+				y = "" // the separator sits directly at the boundary: (x+sep, z) vs (x, sep+z)
+			}
+			// service+sep+server coincide
+			reqs = append(reqs, cidReq{x + sep + y, z, "shift"}, cidReq{x, y + sep + z, "shift"})
+			// server+sep+service coincide
+			reqs = append(reqs, cidReq{y + sep + z, x, "shift-reversed"}, cidReq{z, x + sep + y, "shift-reversed"})
+			// the separator doubled / escaped-looking variants
+			reqs = append(reqs, cidReq{x + sep, sep + z, "shift"}, cidReq{x + sep + sep, z, "shift"}, cidReq{x, sep + sep + z, "shift"})
+			// the empty server id next to a service id ending in the separator
+			reqs = append(reqs, cidReq{x + sep, "", "shift-empty"}, cidReq{x, sep, "shift-empty"})
+			nShift += 9
+		}
+	}
+	for rep := 0; rep < r.N(200, 5000); rep++ {
+		x, y, z := seg(1), seg(1), seg(1)
+		reqs = append(reqs, cidReq{x, y, "swapped"}, cidReq{y, x, "swapped"})
+		reqs = append(reqs, cidReq{x, y, "same-service"}, cidReq{x, z, "same-service"}, cidReq{x, "", "same-service"})
+		reqs = append(reqs, cidReq{y, x, "same-server"}, cidReq{z, x, "same-server"})
+		reqs = append(reqs, cidReq{x + y, x + y, "service-equals-server"}, cidReq{x + y, "", "service-equals-server"})
+		if rep%10 == 0 {
+			long := strings.Repeat(seg(1), 20+crng.IntN(200))
+			reqs = append(reqs, cidReq{long + "a", y, "long-prefix"}, cidReq{long + "b", y, "long-prefix"}, cidReq{long, "a" + y, "long-prefix"},
+				cidReq{y, long + "a", "long-prefix"}, cidReq{y, long + "b", "long-prefix"})
+		}
+	}
+	// order: the structured families are interleaved with the PRNG requests
+	crng.Shuffle(len(reqs), func(i, j int) { reqs[i], reqs[j] = reqs[j], reqs[i] })
+	type cidKey struct{ svc, srv string }
+	var cidMu sync.Mutex
+	idOwner := map[string]cidKey{} // component id -> the request it was issued for
+	checkOne := func(q cidReq, pass string) {
+		svc, srv := q.svc, q.srv
 		req := bifrost_rpc_access.NewLookupRpcServiceRequest(svc, srv)
 		var id string
 		var err error
 		if p, d := vf.Try(func() { id, err = req.MarshalComponentID() }); p {
 			r.Violation("c36/component-id/marshal-panic", "MarshalComponentID panicked: "+d, map[string]any{"service": svc, "server": srv})
-			continue
+			return
 		}
-		valid := req.Validate() == nil // a lookup request needs a service id ("Cannot be empty")
+		valid := svc != "" && req.Validate() == nil // a lookup request needs a service id ("Cannot be empty")
 		r.Case(fmt.Sprintf("cid|%q|%q", svc, srv), valid && utf8.ValidString(svc) && utf8.ValidString(srv))
 		if !valid {
 			// (service "", server "") encodes to the empty component id, which the
 			// decoder rejects; not a lookup request, nothing demanded.
 			r.Count("component_id_invalid_requests_skipped", 1)
-			continue
+			return
 		}
 		if err != nil {
 			r.Count("component_id_marshal_errors", 1)
-			continue
+			return
 		}
 		out := &bifrost_rpc_access.LookupRpcServiceRequest{}
 		var uerr error
 		if p, d := vf.Try(func() { uerr = out.UnmarshalComponentID(id) }); p {
 			r.Violation("c36/component-id/unmarshal-panic", "UnmarshalComponentID panicked: "+d, map[string]any{"service": svc, "server": srv, "component_id": id})
-			continue
+			return
 		}
 		r.Count("component_id_round_trips", 1)
+		r.Count("component_id_round_trips_"+q.how, 1)
 		if uerr != nil || out.GetServiceId() != svc || out.GetServerId() != srv {
 			r.Violation("c36/component-id/round-trip", fmt.Sprintf("request (service %q, server %q) -> component id %q -> (service %q, server %q, err %v)", svc, srv, id, out.GetServiceId(), out.GetServerId(), uerr),
-				map[string]any{"service": svc, "server": srv, "component_id": id, "decoded_service": out.GetServiceId(), "decoded_server": out.GetServerId(), "error": fmt.Sprint(uerr)})
+				map[string]any{"service": svc, "server": srv, "component_id": id, "decoded_service": out.GetServiceId(), "decoded_server": out.GetServerId(), "error": fmt.Sprint(uerr), "family": q.how, "pass": pass})
+		}
+		cidMu.Lock()
+		prev, seen := idOwner[id]
+		if !seen {
+			idOwner[id] = cidKey{svc, srv}
+		}
+		cidMu.Unlock()
+		if seen && prev != (cidKey{svc, srv}) {
+			r.Violation("c36/component-id/shared-by-different-requests", fmt.Sprintf("requests (service %q, server %q) and (service %q, server %q) were both encoded to component id %q, so at most one of them can decode back to itself", prev.svc, prev.srv, svc, srv, id),
+				map[string]any{"service": svc, "server": srv, "other_service": prev.svc, "other_server": prev.srv, "component_id": id, "family": q.how, "pass": pass})
 		}
 	}
+	for i, q := range reqs {
+		if i%50 == 0 {
+			r.Begin(fmt.Sprintf("component id round trip service=%q server=%q", q.svc, q.srv))
+		}
+		checkOne(q, "sequential")
+	}
+	// second pass: every request is encoded again, in another order and from
+	// several goroutines at once (an encoder with memory must still give every
+	// request an id of its own)
+	perm := crng.Perm(len(reqs))
+	r.Begin(fmt.Sprintf("component id round trip, concurrent second pass over %d requests", len(reqs)))
+	{
+		var wg sync.WaitGroup
+		var next atomic.Int64
+		for g := 0; g < 8; g++ {
+			wg.Add(1)
+			go func() {
+				defer wg.Done()
+				for {
+					k := int(next.Add(1)) - 1
+					if k >= len(perm) {
+						return
+					}
+					checkOne(reqs[perm[k]], "concurrent-second-pass")
+				}
+			}()
+		}
+		wg.Wait()
+	}
+	r.Extra("component_id_requests", len(reqs))
+	r.Extra("component_id_boundary_shifted_requests", nShift+2)
+	r.Extra("component_id_separators", len(seps))
+	r.Extra("component_id_distinct_ids", len(idOwner))
 	// arbitrary component ids: decoder is total
 	b58 := []rune("123456789ABCDEFGHJKLMNPQRSTUVWXYZabcdefghijkmnopqrstuvwxyz")
 	junk := []rune("0OIl+/= \x00é")
